@@ -149,3 +149,89 @@ Proof.
         exists si', h'. cbn [streams]. rewrite nget_nset, Ep'. apply Nat.eqb_neq in X. rewrite X.
         split; [exact P1 | split; [exact G' | exact R]].
 Qed.
+
+(* ---- SetPeer (no allow-list transfer) --------------------------------------------------------- *)
+Definition sys_of (al : bool) : sid := if al then ASystem else System.
+Definition tr_of (al : bool) : sid := if al then ATransient else Transient.
+
+Lemma set_peer_eq : forall c st i q ci,
+  nget (conns st) i = Some ci -> ci_peer ci = None ->
+  (if ci_allow ci then match ci_ep ci with Some ip => allowed_peer c q ip | None => false end = true
+   else edges_of (scopes st) (Conn i) <> []) ->
+  let al := ci_allow ci in
+  let '(m', e) := attach1 c (scopes st) (Conn i) (Peer q) (tr_of al) [Peer q; sys_of al] in
+  set_peer c st i q =
+  (mkState m' (nset (conns st) i
+                 (match e with
+                  | None => mkCinfo (ci_in ci) (ci_fd ci) al (Some q) (ci_ip ci) (ci_ep ci)
+                  | Some _ => ci end)) (streams st) (lims st), ecode e).
+Proof.
+  intros c st i q ci G Hp Hc. cbv zeta. unfold set_peer, attach1. rewrite G, Hp.
+  destruct (ci_allow ci) eqn:Al; cbn [sys_of tr_of].
+  - rewrite Hc. cbn [negb andb]. destruct (charge_one (Peer q) _ _) as [m3|e1]; cbn [ci_allow ci_in ci_fd ci_peer ci_ip ci_ep]; rewrite ?Al; reflexivity.
+  - cbn [andb]. destruct (edges_of (scopes st) (Conn i)) as [|e0 es]; [contradiction|].
+    destruct (charge_one (Peer q) _ _) as [m3|e1]; cbn [ci_allow ci_in ci_fd ci_peer ci_ip ci_ep]; rewrite ?Al; reflexivity.
+Qed.
+
+Theorem set_peer_inv : forall c st a i q ac,
+  cfg_ok c -> Inv c (scopes st) a -> Link st a -> nget (aconns a) i = Some ac ->
+  (ac_peer ac = None -> ac_allow ac = false \/ ep_allowed_peer c q (ac_ep ac) = true) ->
+  novf (scopes st) (mem (use_of (scopes st) (Conn i))) ->
+  Inv c (scopes (fst (step c st (OSetPeer i q)))) (anext c st a (OSetPeer i q)) /\
+  Link (fst (step c st (OSetPeer i q))) (anext c st a (OSetPeer i q)).
+Proof.
+  intros c st a i q ac LO I L Ga Hno Ov. destruct L as [Lc Ls].
+  destruct (Lc i ac Ga) as (ci & h & Gci & Gh & Epe & Eal & Eep & Hpar).
+  unfold anext. cbn [step astep]. rewrite Ga.
+  destruct (ac_peer ac) as [q0|] eqn:Ap.
+  { unfold set_peer. rewrite Gci, Epe. cbn [fst]. replace (E_OTHER =? 0) with false by reflexivity. cbn [hd].
+    split; [exact I | split; assumption]. }
+  specialize (Hpar eq_refl). specialize (Hno eq_refl).
+  set (al := ac_allow ac) in *.
+  assert (Estill : (al && ep_allowed_peer c q (ac_ep ac)) = al).
+  { destruct al eqn:Al; [|reflexivity]. destruct Hno as [X|X]; [discriminate | rewrite X; reflexivity]. }
+  assert (Hc : if ci_allow ci then match ci_ep ci with Some ip => allowed_peer c q ip | None => false end = true
+               else edges_of (scopes st) (Conn i) <> []).
+  { rewrite Eal. fold al. destruct al eqn:Al.
+    - destruct Hno as [X|X]; [discriminate|]. rewrite Eep. exact X.
+    - destruct (I_handle c _ a I (Conn i) h Gh eq_refl) as (sc & Gm & _ & _ & Pe & _).
+      unfold edges_of. rewrite Gm, Pe. cbn [leaf]. rewrite Hpar. discriminate. }
+  pose proof (set_peer_eq c st i q ci Gci Epe Hc) as Eq. cbv zeta in Eq. rewrite Eal in Eq. fold al in Eq.
+  set (P' := [Peer q; sys_of al]) in *.
+  set (a2 := mkAstate (holders (set_par a (Conn i) [Peer q; if al && ep_allowed_peer c q (ac_ep ac) then ASystem else System]))
+                      (nset (aconns (set_par a (Conn i) [Peer q; if al && ep_allowed_peer c q (ac_ep ac) then ASystem else System])) i
+                            (mkAconn (ac_ep ac) (al && ep_allowed_peer c q (ac_ep ac)) (Some q) (ac_open ac) (ac_adm ac)))
+                      (astreams (set_par a (Conn i) [Peer q; if al && ep_allowed_peer c q (ac_ep ac) then ASystem else System]))).
+  assert (Hp' : h_par h = [tr_of al; sys_of al]) by (rewrite Hpar; destruct al; reflexivity).
+  pose proof (attach1_inv c (scopes st) a a2 (Conn i) h (Peer q) (tr_of al) P' LO I eq_refl Gh eq_refl) as H.
+  specialize (H ltac:(destruct al; reflexivity) ltac:(destruct al; discriminate)).
+  specialize (H ltac:(rewrite Hp'; left; reflexivity)).
+  specialize (H ltac:(unfold P'; destruct al; repeat constructor; cbn; intuition discriminate)).
+  specialize (H ltac:(unfold P'; intros x [<-|[<-|[]]]; destruct al; reflexivity)).
+  specialize (H ltac:(intros x; rewrite Hp'; unfold P'; cbn [countb]; lia) Ov).
+  specialize (H ltac:(unfold a2; cbn [holders]; rewrite Estill, (set_par_holders a (Conn i) h _ Gh); unfold P', sys_of; reflexivity)).
+  destruct (attach1 c (scopes st) (Conn i) (Peer q) (tr_of al) P') as [m' e]. rewrite Eq. cbn [fst].
+  assert (Ncx : forall i' v, nget (nset (conns st) i v) i' = if Nat.eqb i i' then Some v else nget (conns st) i') by (intros; apply nget_nset).
+  destruct e as [e|].
+  - rewrite ecode_some. replace (al && negb (al && ep_allowed_peer c q (ac_ep ac))) with false by (rewrite Estill; destruct al; reflexivity).
+    cbn [hd scopes]. split; [exact H|]. split.
+    + intros i' ac' Gi. destruct (Lc i' ac' Gi) as (ci' & hc & P1 & R). unfold conn_link. cbn [conns]. rewrite Ncx.
+      destruct (Nat.eqb i i') eqn:X.
+      * apply Nat.eqb_eq in X. subst i'. rewrite Gci in P1. inversion P1; subst ci'. exists ci, hc. split; [reflexivity | exact R].
+      * exists ci', hc. split; [exact P1 | exact R].
+    + intros j s Gj. destruct (Ls j s Gj) as (si & hs & R). exists si, hs. exact R.
+  - cbn [ecode]. replace (0 =? 0) with true by reflexivity. cbn [hd scopes]. fold a2. split; [exact H|]. split.
+    + intros i' ac' Gi. unfold a2 in Gi. cbn [aconns] in Gi. unfold set_par in Gi. rewrite Gh in Gi. cbn [aconns] in Gi.
+      rewrite nget_nset in Gi. unfold a2, conn_link. cbn [holders conns]. rewrite (set_par_holders a (Conn i) h _ Gh), Ncx.
+      destruct (Nat.eqb i i') eqn:X.
+      * apply Nat.eqb_eq in X. subst i'. inversion Gi; subst ac'. eexists. eexists. rewrite hget_hset, sid_eqb_refl.
+        split; [reflexivity|]. split; [reflexivity|]. cbn. rewrite Estill. repeat split; try assumption; discriminate.
+      * destruct (Lc i' ac' Gi) as (ci' & hc & P1 & P2 & R).
+        destruct (hset_other_leaf (holders a) (Conn i) (mkHolder (h_own h) [Peer q; if al && ep_allowed_peer c q (ac_ep ac) then ASystem else System] (h_chain h) (h_dead h)) (Conn i') hc ltac:(apply Nat.eqb_neq in X; congruence) P2) as (h' & G' & Ep').
+        exists ci', h'. rewrite Ep'. split; [exact P1 | split; [exact G' | exact R]].
+    + intros j s Gj. unfold a2 in Gj. cbn [astreams] in Gj. unfold set_par in Gj. rewrite Gh in Gj. cbn [astreams] in Gj.
+      destruct (Ls j s Gj) as (si & hs & P1 & P2 & R).
+      destruct (hset_other_leaf (holders a) (Conn i) (mkHolder (h_own h) [Peer q; if al && ep_allowed_peer c q (ac_ep ac) then ASystem else System] (h_chain h) (h_dead h)) (Stream j) hs ltac:(discriminate) P2) as (h' & G' & Ep').
+      exists si, h'. unfold a2. cbn [holders streams]. rewrite (set_par_holders a (Conn i) h _ Gh), Ep'.
+      split; [exact P1 | split; [exact G' | exact R]].
+Qed.
